@@ -130,7 +130,11 @@ Qed.
 (* ------------------------------------------------------------ schedules *)
 
 Definition step_wf (n : nat) (s : step) : bool :=
-  match s with SSrc _ st _ => Nat.ltb st n | _ => true end.
+  match s with
+  | SSrc _ st _ | SChk _ st | SVeto _ _ st _ => Nat.ltb st n
+  | SBar _ => Nat.ltb 0 n
+  | _ => true
+  end.
 
 Lemma fold_invariant : forall (c : pcfg) (I : cfg -> Prop) (ok : step -> bool),
   (forall s st, I s -> ok st = true -> I (exec_step c s st)) ->
@@ -151,12 +155,40 @@ Proof.
   unfold src_unhindered. intros. rewrite forallb_app, H. reflexivity.
 Qed.
 
+Lemma unhindered_app4 : forall l, src_unhindered l = true -> src_unhindered (l ++ [4%N]) = true.
+Proof.
+  unfold src_unhindered. intros. rewrite forallb_app, H. reflexivity.
+Qed.
+
+Lemma unhindered_mark : forall s, unhindered s -> unhindered (mark s).
+Proof. intros s [H1 H2]. split; auto. Qed.
+
+Lemma unhindered_log0 : forall s, unhindered s -> unhindered (log_only s 0).
+Proof. intros s [H1 H2]. split; cbn; auto using unhindered_app0. Qed.
+
+Lemma unhindered_log4 : forall s, unhindered s -> unhindered (log_only s 4).
+Proof. intros s [H1 H2]. split; cbn; auto using unhindered_app4. Qed.
+
+Lemma nonflat_src_call_unhindered : forall c s k i args, p_flat c = false ->
+  unhindered s -> unhindered (src_call c s k i args).
+Proof.
+  intros c s k i args Hf [Hb Hl]. unfold src_call.
+  destruct (src_op c (c_src s) k i) as [src' ev].
+  destruct ev; [rewrite Hf|]; split; cbn; auto using unhindered_app0.
+Qed.
+
 Lemma nonflat_step_unhindered : forall c s st, p_flat c = false ->
   unhindered s -> unhindered (exec_step c s st).
 Proof.
-  intros c s st Hf [Hb Hl]. destruct st; unfold exec_step.
-  - rewrite Hb. destruct (src_op c (c_src s) k st) as [src' ev].
-    destruct ev; [rewrite Hf|]; split; cbn; auto using unhindered_app0.
+  intros c s st Hf H. pose proof H as [Hb Hl]. destruct st; unfold exec_step.
+  - rewrite Hb. apply nonflat_src_call_unhindered; auto.
+  - rewrite Hb. apply unhindered_mark, unhindered_log0; auto.
+  - rewrite Hb. destruct (veto_hits c s how k st).
+    + apply unhindered_mark, unhindered_log4; auto.
+    + apply unhindered_mark, nonflat_src_call_unhindered; auto.
+  - rewrite Hb. destruct veto.
+    + apply unhindered_mark, unhindered_log4; auto.
+    + apply nonflat_src_call_unhindered; auto.
   - destruct (nth_error (c_bag s) i); [|split; auto].
     destruct (deliver c (c_tgt s) m). split; cbn; auto.
   - destruct (t_busy (c_tgt s)); [|split; auto]. split; cbn; auto.
@@ -188,54 +220,80 @@ Record flat_inv (n : nat) (s : cfg) : Prop := {
   fi_eq : forall j, act (c_src s) j = act (t_ticks (c_tgt s)) j
 }.
 
+Lemma flat_inv_mark : forall n s, flat_inv n s -> flat_inv n (mark s).
+Proof. intros n s [H1 H2 H3 H4 H5 H6]. constructor; auto using unhindered_mark. Qed.
+
+Lemma flat_inv_log : forall n s code, (code = 0 \/ code = 4)%N ->
+  flat_inv n s -> flat_inv n (log_only s code).
+Proof.
+  intros n s code Hc [H1 H2 H3 H4 H5 H6]. constructor; auto.
+  destruct Hc; subst; auto using unhindered_log0, unhindered_log4.
+Qed.
+
+Lemma flat_src_call : forall c s k st args,
+  p_flat c = true -> p_addonly c = false -> no_parks c ->
+  flat_inv (p_n c) s -> st < p_n c ->
+  flat_inv (p_n c) (src_call c s k st args).
+Proof.
+  intros c s k st args Hf Hao Hp I Hwf.
+  destruct I as [Hidle Hbag [Hb Hl] Hls Hlt Heq]. unfold src_call.
+  destruct (src_op c (c_src s) k st) as [src' ev] eqn:Hop.
+  apply src_op_spec in Hop; [|lia]. destruct Hop as (Hlen & Hact & Hev).
+  destruct ev as [e|].
+  - destruct Hev as [-> Hst']. rewrite Hf.
+    set (t := c_tgt s) in *.
+    assert (Hskipeq : (match k with MAdd => act (t_ticks t) st
+                                 | MRem => negb (act (t_ticks t) st) end)
+                      = Bool.eqb (act (t_ticks t) st) (is_add k)).
+    { destruct k; cbn; destruct (act (t_ticks t) st); reflexivity. }
+    rewrite Hskipeq.
+    destruct (Bool.eqb (act (t_ticks t) st) (is_add k)) eqn:Hsk.
+    + (* skip: the target already agrees *)
+      apply eqb_prop in Hsk.
+      constructor; cbn; auto.
+      * split; cbn; auto using unhindered_app0.
+      * lia.
+      * intro j. rewrite Hact. destruct (Nat.eqb_spec j st) as [->|Hne].
+        -- symmetry. exact Hsk.
+        -- apply Heq.
+    + rewrite deliver_idle by auto. cbn [fst snd].
+      destruct Hidle as [Hbz Hq]. rewrite Hbz. cbn [negb andb].
+      constructor; cbn; auto.
+      * split; auto.
+      * split; cbn; auto using unhindered_app0.
+      * lia.
+      * rewrite apply_mut_length. auto.
+      * intro j. rewrite apply_mut_act by (cbn; lia). cbn [m_st m_kind].
+        rewrite Hact. destruct (Nat.eqb_spec j st) as [->|Hne].
+        -- reflexivity.
+        -- apply Heq.
+  - destruct Hev as [Hsame|[Hx _]]; [|congruence].
+    constructor; cbn; auto.
+    + split; cbn; auto using unhindered_app0.
+    + lia.
+    + intro j. rewrite Hsame. apply Heq.
+Qed.
+
 Lemma flat_step : forall c s st,
   p_flat c = true -> p_addonly c = false -> no_parks c ->
   flat_inv (p_n c) s -> step_flat_ok (p_n c) st = true ->
   flat_inv (p_n c) (exec_step c s st).
 Proof.
-  intros c s st Hf Hao Hp I Hok.
+  intros c s st Hf Hao Hp I Hok. pose proof I as I0.
   destruct I as [Hidle Hbag [Hb Hl] Hls Hlt Heq].
   unfold step_flat_ok in Hok. apply andb_true_iff in Hok. destruct Hok as [Hwf Hnh].
   destruct st; unfold exec_step.
-  - (* SSrc *)
-    cbn in Hwf. apply Nat.ltb_lt in Hwf. rewrite Hb.
-    destruct (src_op c (c_src s) k st) as [src' ev] eqn:Hop.
-    apply src_op_spec in Hop; [|lia]. destruct Hop as (Hlen & Hact & Hev).
-    destruct ev as [e|].
-    + destruct Hev as [-> Hst']. rewrite Hf.
-      set (t := c_tgt s) in *.
-      assert (Hskipeq : (match k with MAdd => act (t_ticks t) st
-                                   | MRem => negb (act (t_ticks t) st) end)
-                        = Bool.eqb (act (t_ticks t) st) (is_add k)).
-      { destruct k; cbn; destruct (act (t_ticks t) st); reflexivity. }
-      rewrite Hskipeq.
-      destruct (Bool.eqb (act (t_ticks t) st) (is_add k)) eqn:Hsk.
-      * (* skip: the target already agrees *)
-        apply eqb_prop in Hsk.
-        constructor; cbn; auto.
-        -- split; cbn; auto using unhindered_app0.
-        -- lia.
-        -- intro j. rewrite Hact. destruct (Nat.eqb_spec j st) as [->|Hne].
-           ++ symmetry. exact Hsk.
-           ++ apply Heq.
-      * rewrite deliver_idle by auto. cbn [fst snd].
-        destruct Hidle as [Hbz Hq]. rewrite Hbz. cbn [negb andb].
-        constructor; cbn; auto.
-        -- split; auto.
-        -- split; cbn; auto using unhindered_app0.
-        -- lia.
-        -- rewrite apply_mut_length. auto.
-        -- intro j. rewrite apply_mut_act by (cbn; lia). cbn [m_st m_kind].
-           rewrite Hact. destruct (Nat.eqb_spec j st) as [->|Hne].
-           ++ reflexivity.
-           ++ apply Heq.
-    + destruct Hev as [Hsame|[Hx _]]; [|congruence].
-      constructor; cbn; auto.
-      * split; cbn; auto using unhindered_app0.
-      * lia.
-      * intro j. rewrite Hsame. apply Heq.
-  - rewrite Hbag. destruct i; cbn; constructor; auto; split; auto.
-  - destruct Hidle as [Hbz Hq]. rewrite Hbz. constructor; auto; split; auto.
+  - unfold step_wf in Hwf. apply Nat.ltb_lt in Hwf. rewrite Hb. apply flat_src_call; auto.
+  - rewrite Hb. apply flat_inv_mark, flat_inv_log; auto.
+  - unfold step_wf in Hwf. apply Nat.ltb_lt in Hwf. rewrite Hb.
+    destruct (veto_hits c s how k st).
+    + apply flat_inv_mark, flat_inv_log; auto.
+    + apply flat_inv_mark, flat_src_call; auto.
+  - unfold step_wf in Hwf. apply Nat.ltb_lt in Hwf. rewrite Hb. destruct veto.
+    + apply flat_inv_mark, flat_inv_log; auto.
+    + apply flat_src_call; auto.
+  - rewrite Hbag. destruct i; cbn; auto.
+  - destruct Hidle as [Hbz Hq]. rewrite Hbz. auto.
   - cbn in Hnh. discriminate.
 Qed.
 
@@ -323,45 +381,83 @@ Record nf_inv (n : nat) (s : cfg) : Prop := {
                     end
 }.
 
+Lemma nf_inv_mark : forall n s, nf_inv n s -> nf_inv n (mark s).
+Proof. intros n s [H1 H2 H3 H4 H5 H6]. constructor; auto. Qed.
+
+Lemma nf_inv_log : forall n s code, nf_inv n s -> nf_inv n (log_only s code).
+Proof. intros n s code [H1 H2 H3 H4 H5 H6]. constructor; auto. Qed.
+
+Lemma nf_src_call : forall c s k st args,
+  p_flat c = false -> p_addonly c = false ->
+  nf_inv (p_n c) s -> st < p_n c ->
+  nf_inv (p_n c) (src_call c s k st args).
+Proof.
+  intros c s k st args Hf Hao I Hwf.
+  destruct I as [Hidle Hls Hlt Hbag Hb Heq]. unfold src_call.
+  destruct (src_op c (c_src s) k st) as [src' ev] eqn:Hop.
+  apply src_op_spec in Hop; [|lia]. destruct Hop as (Hlen & Hact & Hev).
+  destruct ev as [e|].
+  - destruct Hev as [-> Hst']. rewrite Hf.
+    constructor; cbn; auto; try lia.
+    + apply Forall_app. split; auto.
+    + intro j. rewrite last_ev_app. cbn [m_st m_kind].
+      destruct (Nat.eqb_spec st j) as [->|Hne]; auto.
+      specialize (Heq j). rewrite Hact.
+      destruct (Nat.eqb_spec j st); [congruence|]. auto.
+  - destruct Hev as [Hsame|[Hx _]]; [|congruence].
+    constructor; cbn; auto; try lia.
+    intro j. specialize (Heq j). rewrite Hsame. auto.
+Qed.
+
+(* every step but the delivery of a call *)
+Lemma nf_step_src : forall c s st,
+  p_flat c = false -> p_addonly c = false ->
+  nf_inv (p_n c) s -> step_wf (p_n c) st = true -> is_hold st = false ->
+  (forall i, st <> SDel i) ->
+  nf_inv (p_n c) (exec_step c s st).
+Proof.
+  intros c s st Hf Hao I Hwf Hnh Hnd. pose proof I as I0.
+  destruct I as [Hidle Hls Hlt Hbag Hb Heq].
+  destruct st; unfold exec_step.
+  - unfold step_wf in Hwf. apply Nat.ltb_lt in Hwf. rewrite Hb. apply nf_src_call; auto.
+  - rewrite Hb. apply nf_inv_mark, nf_inv_log; auto.
+  - unfold step_wf in Hwf. apply Nat.ltb_lt in Hwf. rewrite Hb.
+    destruct (veto_hits c s how k st).
+    + apply nf_inv_mark, nf_inv_log; auto.
+    + apply nf_inv_mark, nf_src_call; auto.
+  - unfold step_wf in Hwf. apply Nat.ltb_lt in Hwf. rewrite Hb. destruct veto.
+    + apply nf_inv_mark, nf_inv_log; auto.
+    + apply nf_src_call; auto.
+  - exfalso. apply (Hnd i). reflexivity.
+  - destruct Hidle as [Hbz Hq]. rewrite Hbz. auto.
+  - discriminate.
+Qed.
+
 Lemma nf_step : forall c s st,
   p_flat c = false -> p_addonly c = false -> no_parks c ->
   nf_inv (p_n c) s -> step_inorder_ok (p_n c) st = true ->
   nf_inv (p_n c) (exec_step c s st).
 Proof.
   intros c s st Hf Hao Hp I Hok.
-  destruct I as [Hidle Hls Hlt Hbag Hb Heq].
   unfold step_inorder_ok in Hok. apply andb_true_iff in Hok. destruct Hok as [Hok Hof].
   apply andb_true_iff in Hok. destruct Hok as [Hwf Hnh].
-  destruct st; unfold exec_step.
-  - cbn in Hwf. apply Nat.ltb_lt in Hwf. rewrite Hb.
-    destruct (src_op c (c_src s) k st) as [src' ev] eqn:Hop.
-    apply src_op_spec in Hop; [|lia]. destruct Hop as (Hlen & Hact & Hev).
-    destruct ev as [e|].
-    + destruct Hev as [-> Hst']. rewrite Hf.
-      constructor; cbn; auto; try lia.
-      * apply Forall_app. split; auto.
-      * intro j. rewrite last_ev_app. cbn [m_st m_kind].
-        destruct (Nat.eqb_spec st j) as [->|Hne]; auto.
-        specialize (Heq j). rewrite Hact.
-        destruct (Nat.eqb_spec j st); [congruence|]. auto.
-    + destruct Hev as [Hsame|[Hx _]]; [|congruence].
-      constructor; cbn; auto; try lia.
-      intro j. specialize (Heq j). rewrite Hsame. auto.
-  - destruct i; [|cbn in Hof; discriminate].
-    destruct (c_bag s) as [|m rest] eqn:Hbg; cbn [nth_error].
-    + constructor; auto; rewrite Hbg; auto.
-    + rewrite deliver_idle by auto.
-      inversion Hbag as [|? ? Hm Hrest]; subst.
-      constructor; cbn; auto.
-      * split; auto.
-      * rewrite apply_mut_length. auto.
-      * intro j. specialize (Heq j). cbn [last_ev] in Heq.
-        destruct (last_ev j rest) as [k|]; auto.
-        rewrite apply_mut_act by lia.
-        rewrite Nat.eqb_sym.
-        destruct (Nat.eqb (m_st m) j); auto.
-  - destruct Hidle as [Hbz Hq]. rewrite Hbz. constructor; auto; split; auto.
-  - cbn in Hnh. discriminate.
+  apply negb_true_iff in Hnh.
+  destruct st as [| | | |i| |];
+    try (apply nf_step_src; auto; intros; discriminate).
+  destruct I as [Hidle Hls Hlt Hbag Hb Heq]. unfold exec_step.
+  destruct i; [|cbn in Hof; discriminate].
+  destruct (c_bag s) as [|m rest] eqn:Hbg; cbn [nth_error].
+  - constructor; auto; rewrite Hbg; auto.
+  - rewrite deliver_idle by auto.
+    inversion Hbag as [|? ? Hm Hrest]; subst.
+    constructor; cbn; auto.
+    + split; auto.
+    + rewrite apply_mut_length. auto.
+    + intro j. specialize (Heq j). cbn [last_ev] in Heq.
+      destruct (last_ev j rest) as [k|]; auto.
+      rewrite apply_mut_act by lia.
+      rewrite Nat.eqb_sym.
+      destruct (Nat.eqb (m_st m) j); auto.
 Qed.
 
 Lemma init_nf_inv : forall c, nf_inv (p_n c) (init c).
@@ -685,14 +781,24 @@ Definition step_nf_ok (n : nat) (s : step) : bool := step_wf n s && negb (is_hol
 
 Definition nf_inv' (n : nat) (s : cfg) : Prop := c_reord s = true \/ nf_inv n s.
 
+Lemma reord_src_call : forall c s k i args,
+  c_reord (src_call c s k i args) = c_reord s.
+Proof.
+  intros. unfold src_call. destruct (src_op c (c_src s) k i) as [src' ev].
+  destruct ev; cbn; auto. destruct (p_flat c); cbn; auto.
+  destruct (match m with MAdd => _ | MRem => _ end); cbn; auto.
+  destruct (deliver c (c_tgt s) _); cbn; auto.
+Qed.
+
 Lemma reord_sticky : forall c s st, c_reord s = true -> c_reord (exec_step c s st) = true.
 Proof.
   intros c s st H. destruct st; unfold exec_step.
+  - destruct (c_blocked s); [cbn; auto|]. rewrite reord_src_call. auto.
   - destruct (c_blocked s); cbn; auto.
-    destruct (src_op c (c_src s) k st) as [src' ev]. destruct ev; cbn; auto.
-    destruct (p_flat c); cbn; auto.
-    destruct (match m with MAdd => _ | MRem => _ end); cbn; auto.
-    destruct (deliver c (c_tgt s) _); cbn; auto.
+  - destruct (c_blocked s); [cbn; auto|].
+    destruct (veto_hits c s how k st); cbn; auto. rewrite reord_src_call. auto.
+  - destruct (c_blocked s); [cbn; auto|]. destruct veto; [cbn; auto|].
+    rewrite reord_src_call. auto.
   - destruct (nth_error (c_bag s) i); auto.
     destruct (deliver c (c_tgt s) m). cbn. rewrite H. auto.
   - destruct (t_busy (c_tgt s)); cbn; auto.
@@ -706,33 +812,32 @@ Lemma nf_step' : forall c s st,
 Proof.
   intros c s st Hf Hao Hp [Hr|I] Hok.
   { left. apply reord_sticky. auto. }
-  destruct st as [k i a|i| |].
-  - right. apply nf_step; auto. unfold step_inorder_ok.
-    unfold step_nf_ok in Hok. rewrite Hok. reflexivity.
-  - destruct I as [Hidle Hls Hlt Hbag Hb Heq]. unfold exec_step.
-    destruct (nth_error (c_bag s) i) as [m|] eqn:Hn.
-    + rewrite deliver_idle by auto.
-      destruct (older_same (c_bag s) i m) eqn:Hos.
-      * left. cbn. apply orb_true_r.
-      * right.
-        assert (Hm : m_st m < p_n c).
-        { apply nth_error_In in Hn. rewrite Forall_forall in Hbag. auto. }
-        constructor; cbn; auto.
-        -- split; auto.
-        -- rewrite apply_mut_length. auto.
-        -- apply Forall_remove_nth. auto.
-        -- intro j. specialize (Heq j).
-           destruct (last_ev_remove i (c_bag s) m Hn Hos j) as [L1 L2].
-           rewrite apply_mut_act by lia. rewrite Nat.eqb_sym.
-           destruct (Nat.eqb (m_st m) j) eqn:E.
-           ++ specialize (L2 eq_refl).
-              destruct (last_ev j (remove_nth i (c_bag s))).
-              ** rewrite L2 in Heq. auto.
-              ** rewrite L2 in Heq. auto.
-           ++ rewrite L1 by auto. auto.
-    + right. constructor; auto.
-  - right. apply nf_step; auto.
-  - right. apply nf_step; auto.
+  unfold step_nf_ok in Hok. apply andb_true_iff in Hok. destruct Hok as [Hwf Hnh].
+  apply negb_true_iff in Hnh.
+  destruct st as [| | | |i| |];
+    try (right; apply nf_step_src; auto; intros; discriminate).
+  destruct I as [Hidle Hls Hlt Hbag Hb Heq]. unfold exec_step.
+  destruct (nth_error (c_bag s) i) as [m|] eqn:Hn.
+  - rewrite deliver_idle by auto.
+    destruct (older_same (c_bag s) i m) eqn:Hos.
+    + left. cbn. apply orb_true_r.
+    + right.
+      assert (Hm : m_st m < p_n c).
+      { apply nth_error_In in Hn. rewrite Forall_forall in Hbag. auto. }
+      constructor; cbn; auto.
+      * split; auto.
+      * rewrite apply_mut_length. auto.
+      * apply Forall_remove_nth. auto.
+      * intro j. specialize (Heq j).
+        destruct (last_ev_remove i (c_bag s) m Hn Hos j) as [L1 L2].
+        rewrite apply_mut_act by lia. rewrite Nat.eqb_sym.
+        destruct (Nat.eqb (m_st m) j) eqn:E.
+        -- specialize (L2 eq_refl).
+           destruct (last_ev j (remove_nth i (c_bag s))).
+           ++ rewrite L2 in Heq. auto.
+           ++ rewrite L2 in Heq. auto.
+        -- rewrite L1 by auto. auto.
+  - right. constructor; auto.
 Qed.
 
 Lemma nonflat_follows_per_state_order_lemma : forall (c : pcfg) (steps : list step),
@@ -767,3 +872,26 @@ Example per_state_order_nonvacuous :
   c_reord (run c steps) = false /\ quiescent (run c steps) = true /\
   forallb oldest_first steps = false.
 Proof. vm_compute. repeat split; reflexivity. Qed.
+
+(* ------------------------------------------------------------ checks and vetoed mutations *)
+
+Definition silent_step (c : pcfg) (s : cfg) (st : step) : bool :=
+  match st with
+  | SChk _ _ => true
+  | SVeto how k i _ => veto_hits c s how k i
+  | SBar v => v
+  | _ => false
+  end.
+
+Lemma check_or_veto_silent_lemma : forall (c : pcfg) (s : cfg) (st : step),
+  silent_step c s st = true ->
+  let s' := exec_step c s st in
+  c_src s' = c_src s /\ c_tgt s' = c_tgt s /\ c_bag s' = c_bag s /\
+  c_dellog s' = c_dellog s /\ exists code, c_evlog s' = c_evlog s ++ [0%N] /\
+  c_srclog s' = c_srclog s ++ [code].
+Proof.
+  intros c s st H. destruct st; cbn in H; try discriminate; cbv zeta; unfold exec_step.
+  - destruct (c_blocked s); cbn; repeat split; eauto.
+  - rewrite H. destruct (c_blocked s); cbn; repeat split; eauto.
+  - subst veto. destruct (c_blocked s); cbn; repeat split; eauto.
+Qed.
